@@ -81,7 +81,7 @@ class Gaussian(DPMechanism):
         if not isinstance(sensitivity, Real):
             raise TypeError("Sensitivity must be numeric")
 
-        if sensitivity < 0:
+        if not sensitivity >= 0:
             raise ValueError("Sensitivity must be non-negative")
 
         return float(sensitivity)
@@ -247,7 +247,7 @@ class GaussianDiscrete(DPMechanism):
         if not isinstance(sensitivity, Integral):
             raise TypeError("Sensitivity must be an integer")
 
-        if sensitivity < 0:
+        if not sensitivity >= 0:
             raise ValueError("Sensitivity must be non-negative")
 
         return sensitivity
